@@ -55,6 +55,9 @@ type lField struct {
 	// OffFmt: how the (decimal) offset is written in the tag - 0 "8", 1 "08", 2 "008", 3 " 8" (blank after the colon): the tag
 	// grammar is offset:\s*[0-9]+ and the digits are decimal however many leading zeros they carry
 	OffFmt uint8 `json:"offset_format,omitempty"`
+	// TagForm: how the struct tag is laid out around the two items - 0 `uhppote:"offset:N, value:V"`, 1 the value item first,
+	// 2 no blank after the comma, 3 / 4 another key (json) before / after the uhppote key in the same struct tag
+	TagForm uint8 `json:"tag_form,omitempty"`
 }
 
 func (f lField) offText() string {
@@ -143,6 +146,18 @@ func (c layoutCase) build() (reflect.Type, bool) {
 		tag := fmt.Sprintf(`uhppote:"offset:%s"`, f.offText())
 		if f.Kind == "u8fixed" {
 			tag = fmt.Sprintf(`uhppote:"offset:%s, value:%s"`, f.offText(), f.Tag)
+			switch f.TagForm % 5 {
+			case 1:
+				tag = fmt.Sprintf(`uhppote:"value:%s, offset:%s"`, f.Tag, f.offText())
+			case 2:
+				tag = fmt.Sprintf(`uhppote:"offset:%s,value:%s"`, f.offText(), f.Tag)
+			}
+		}
+		switch f.TagForm % 5 {
+		case 3:
+			tag = fmt.Sprintf(`json:"f%d,omitempty" %s`, i, tag)
+		case 4:
+			tag = fmt.Sprintf(`%s json:"f%d"`, tag, i)
 		}
 		sf := reflect.StructField{Name: c.fieldName(i), Type: k.typ, Tag: reflect.StructTag(tag)}
 		if f.Embedded {
@@ -583,6 +598,7 @@ func genLayout(t *rapid.T) layoutCase {
 		f := lField{Kind: k.name, Off: off, Embedded: embed && rapid.Bool().Draw(t, "embedded")}
 		if rapid.IntRange(0, 3).Draw(t, "offset.form") == 0 {
 			f.OffFmt = uint8(rapid.IntRange(1, 3).Draw(t, "offset.fmt"))
+			f.TagForm = uint8(rapid.IntRange(0, 4).Draw(t, "tag.form"))
 		}
 		if k.name == "u8fixed" {
 			x := rapid.IntRange(0, 255).Draw(t, "fixed")
@@ -649,6 +665,7 @@ func sweepSingle(yield func(layoutCase) bool) {
 					f := s
 					f.Kind, f.Off, f.Embedded = k.name, off, emb
 					f.OffFmt = uint8((off + vi) % 4)
+					f.TagForm = uint8((off/4 + vi) % 5)
 					code := byte(0x5f + off)
 					c := layoutCase{Code: code, CodeTag: []string{fmt.Sprintf("0x%02x", code), fmt.Sprintf("%d", code), fmt.Sprintf("0X%02X", code)}[off%3], Fields: []lField{f}, CodeEmb: emb && off%2 == 0}
 					if !yield(c) {
